@@ -217,6 +217,17 @@ class FileSystemLoader(BaseLoader):
         mtime = os.path.getmtime(filename)
 
         def uptodate() -> bool:
+            # A file of the same name that has appeared in a search path
+            # consulted earlier shadows the file that was loaded.
+            for searchpath in self.searchpath:
+                candidate = posixpath.join(searchpath, *pieces)
+
+                if candidate == filename:
+                    break
+
+                if os.path.isfile(candidate):
+                    return False
+
             try:
                 return os.path.getmtime(filename) == mtime
             except OSError:
